@@ -481,6 +481,15 @@ func (tx *Tx) buildListIdx(bucket string, entry *Entry) {
 // rotateActiveFile rotates log file when active file is not enough space to store the entry.
 func (tx *Tx) rotateActiveFile() error {
 	var err error
+
+	// create the next file first: when that fails nothing has been changed yet, the transaction
+	// fails and the database keeps its active file (it used to be left with a nil ActiveFile, and
+	// the next Commit or Close panicked).
+	nextFile, err := NewDataFile(tx.db.getDataPath(tx.db.MaxFileID+1), tx.db.opt.SegmentSize, tx.db.opt.RWMode)
+	if err != nil {
+		return err
+	}
+
 	fID := tx.db.MaxFileID
 	tx.db.MaxFileID++
 
@@ -552,11 +561,7 @@ func (tx *Tx) rotateActiveFile() error {
 	}
 
 	// reset ActiveFile
-	path := tx.db.getDataPath(tx.db.MaxFileID)
-	tx.db.ActiveFile, err = NewDataFile(path, tx.db.opt.SegmentSize, tx.db.opt.RWMode)
-	if err != nil {
-		return err
-	}
+	tx.db.ActiveFile = nextFile
 
 	tx.db.ActiveFile.fileID = tx.db.MaxFileID
 	return nil
